@@ -23,6 +23,8 @@ def run(tier, seed):
             # model family options outside the seed-to-model map: bursts of simultaneous events (chains of up to 12 zero-delay hops),
             # LPs that never call SetState() (library generator only)
             env = {"VM_FORCE_TS": "3", "VM_FORCE_RNG": "0"} if k % 8 == 5 else {"VM_STATELESS": "1", "VM_FORCE_RNG": "1"} if k % 8 == 6 else None
+            if k % 2:
+                env = dict(env or {}, VERIF_MALLOC_FILL="255")   # fresh heap memory reads as all-ones in every other process
             cases.append({"cmd": [exe, str(first), str(per), str(size), term], "tag": "%s/%d%s" % (fl, k, "" if not env else "/" + ",".join(sorted(env))), "env": env})
     for res in vlib.run_cases(cases, parallel=16, timeout=900):
         rec, anomaly = vlib.absorb(chk, res)
